@@ -12,10 +12,11 @@ for line in open(os.path.join(VERIF, "properties.jsonl")):
         P = d
 wt = "%s/%s" % (root, prop)
 rnd = sys.argv[3] if len(sys.argv) > 3 else "5"
-tpl = open(os.path.join(HERE, "seed_round%s_template.txt" % rnd)).read()
-if rnd == "6":
-    a, b = json.load(open(os.path.join(HERE, "seed_round6_sites.json")))[prop]
+tpl = open(os.path.join(HERE, "seed_round%s_template.txt" % ("6" if rnd == "7" else rnd))).read()
+if rnd in ("6", "7"):
+    a, b = json.load(open(os.path.join(HERE, "seed_round%s_sites.json" % rnd)))[prop]
     tpl = tpl.replace("<FILE_A>", a).replace("<FILE_B>", b)
+tpl = tpl.replace("<ANCHOR_FILES>", ", ".join(P["anchors"]["files"]))
 out = tpl.replace("<WORKTREE>", wt).replace("<PROP>", prop).replace("<TITLE>", P["title"]).replace("<STATEMENT>", P["statement"]) \
     .replace("<QUANT>", P["quantifier"]["text"]).replace("<WHY>", P["why_tests_cant"])
 print(out)
